@@ -5,6 +5,7 @@ import (
 	"strings"
 	"testing"
 
+	"go.etcd.io/raft/v3"
 	pb "go.etcd.io/raft/v3/raftpb"
 	"verif/harness/sim"
 )
@@ -370,4 +371,61 @@ func TestReplay_C01_AsyncVoteForUnstableLog(t *testing.T) {
 }
 func TestReplay_C05_AsyncVoteForUnstableLog(t *testing.T) {
 	asyncVoteForUnstableLog(t, []string{"C04", "C01", "C05"})
+}
+
+// C15 finding (thorough tier, macro LeaveDuringTransfer): a conf-change
+// proposal that appendEntry drops (uncommitted-size limit) has already moved
+// pendingConfIndex past the end of the log. A leader in an auto-leave joint
+// configuration then never proposes the leave (it waits for the applied index
+// to reach an index that does not exist), and later conf changes are refused,
+// until some other entries happen to be appended and applied.
+func droppedConfChangeBlocksAutoLeave(t *testing.T, owned []string) sim.CaseResult {
+	w := world(3, []uint64{1, 2, 3}, func(id uint64, o *sim.NodeOpts) { o.MaxUncommittedEntriesSize = 10 })
+	return sim.RunScript(w, owned, nil, func(s *sim.Sim) {
+		n1, n2, n3 := s.Nodes[1], s.Nodes[2], s.Nodes[3]
+		elect(s, 1)
+		// joint change with auto-leave whose leave proposal is dropped by a
+		// pending transfer to an unreachable node
+		cc := &pb.ConfChangeV2{Transition: pb.ConfChangeTransitionJointImplicit.Enum(),
+			Changes: []*pb.ConfChangeSingle{{Type: pb.ConfChangeAddLearnerNode.Enum(), NodeId: new(uint64(3))}}}
+		s.ProposeConf(n1, cc, false)
+		s.Isolate(n3)
+		s.TransferLeader(n1, 3)
+		s.Stabilize(8)
+		// node 2 takes over (the joint config is still in force), is cut off
+		// before anything of its term commits, accepts one proposal that fills the quota
+		s.Heal()
+		for i := 0; i < 4 && n2.RN.BasicStatus().RaftState != raft.StateLeader; i++ {
+			s.TickUntilCampaign(n2)
+			for r := 0; r < 8 && n2.RN.BasicStatus().RaftState != raft.StateLeader; r++ {
+				s.Stabilize(1)
+			}
+		}
+		s.Isolate(n2)
+		s.Propose(n2, 10) // fills the quota
+		// an explicit leave-joint proposal of the application (it carries a
+		// context, so it has a size): passes the checks, moves
+		// pendingConfIndex, and is then dropped by appendEntry
+		s.ProposeConf(n2, &pb.ConfChangeV2{}, false)
+		s.Heal()
+		// a fault-free suffix without further proposals: twenty election
+		// timeouts of ticks with everything delivered
+		for r := 0; r < 20*4; r++ {
+			for _, id := range []uint64{1, 2, 3} {
+				s.Tick(s.Nodes[id])
+			}
+			s.Stabilize(4)
+		}
+	})
+}
+
+func TestReplay_C15_DroppedConfChangeBlocksAutoLeave(t *testing.T) {
+	res := droppedConfChangeBlocksAutoLeave(t, []string{"C15"})
+	report(t, res)
+	for _, id := range []uint64{1, 2, 3} {
+		if st := res.Sim.Nodes[id].RN.VerifState(); len(st.VotersOutgoing) > 0 && st.AutoLeave {
+			t.Fatalf("VIOLATION[C15/converges sig=c15.not_converged step=0]: after a fault-free suffix of 20 election timeouts node %d (%v) is still in the auto-leave joint config voters=%v&&%v (pendingConfIndex %d, last index %d, applied %d): the leave was never proposed",
+				id, st.State, st.Voters, st.VotersOutgoing, st.PendingConfIndex, st.LastIndex, st.Applied)
+		}
+	}
 }
